@@ -1,6 +1,7 @@
 (* C03 oracle.  Protocol (numbers in hex, '-' = empty list / not found):
      case <new|old> <addrs> <slots> <classes> | <op>;<op>;...
-        op = R  |  S <deploy a:c,..> <replace a:c,..> <nonce a:v,..> <store a:k:v,..> <decl h,..>
+        op = R  |  S <deploy a:c,..> <replace a:c,..> <nonce a:v,..> <store a:k:v,..> <decl h,..> <delivered h,..>
+             (delivered = class hashes whose definition comes with the block for its deployed contracts, not declared by it)
      replies   ops <bit per op: store valid / revert succeeded>
                sysg <bit per op: sys_guarded of the sequence up to and including the op>
                height <number of blocks of the resulting chain>
@@ -30,10 +31,10 @@ let parse_cop (s : string) : cop = match words s with
 
 let parse_op (s : string) : op = match words s with
   | ["R"] -> Revert
-  | ["S"; dep; rep; non; sto; dec] ->
+  | ["S"; dep; rep; non; sto; dec; dlv] ->
       Store { d_deploy = List.map pair (list_of dep); d_replace = List.map pair (list_of rep);
               d_nonce = List.map pair (list_of non); d_store = List.map triple (list_of sto);
-              d_decl = List.map hx (list_of dec) }
+              d_decl = List.map hx (list_of dec); d_deliv = List.map hx (list_of dlv) }
   | _ -> failwith ("op: " ^ s)
 
 let show_ans = function Found v -> hex_of_n v | NotFound -> "-"
